@@ -466,7 +466,9 @@ class MerchantEngine:
                         if isinstance(result, list):
                             for item in result:
                                 if item:
-                                    resolved.add(str(item).strip().lower())
+                                    item_str = str(item).strip()
+                                    if item_str:
+                                        resolved.add(item_str.lower())
                         else:
                             stripped = str(result).strip()
                             if stripped:
